@@ -3,11 +3,13 @@ from vcommon import *
 import scen_common, prop_mu_family
 
 PID = "C14"
-PROP_V = "Props/Properties_C14.v"
+PROP_V = ["Props/Properties_C14.v", "Props/Properties_C14b.v"]
 GEN_MODULES = ["Consts", "Sites"]
 FLOW_FILES = ['mu.c']
 REPLAY_HINT = "VRT_SEED=<seed> VRT_ADVERSARY=1 VRT_KIND=<0|1|2> _work/h/starve: the trace notes how often the victim slept inside one lock call"
-PARTIAL = ["the numeric bound on the victim's sleeps (C14_bound) is not proved: the four lemmas it follows from are (barrier, escalation + "
+PARTIAL = ["non-vacuity: Properties_C14b computes a 30-round adversarial run of the model (word 101 after the 30th failed wake-up, then word 72 with the lock free "
+           "and MU_LONG_WAIT set: a fresh locker queues, the victim acquires and clears the bit); the numeric bound for arbitrary schedules remains unproved",
+           "the numeric bound on the victim's sleeps (C14_bound) is not proved: the four lemmas it follows from are (barrier, escalation + "
            "enqueue-sets-bit, front re-queueing, a woken waiter ignores the barrier); the bound itself is asserted by the adversarial-schedule oracle"]
 TRUSTED_BASE = ["harness/scen/starve.c adversary: scenario-directed scheduling that lets a barger take the mutex in every window between the victim's wake-up and its next attempt"]
 
